@@ -481,6 +481,40 @@ def execute(plan):
                     mgr.add_server(WBEMServer(w.conn(m, s)))
                     w.reg[m].add(s)
                 elif s is not None and s not in w.reg[m]:
+                    # the server is not (or no longer) registered with this
+                    # manager: documented as ValueError, nothing is sent
+                    bump(probes, 'call_for_unregistered_server')
+                    fp = pywbem.CIMInstanceName(
+                        FILT_CLS, {'Name': 'x'}, namespace='interop')
+                    dp = pywbem.CIMInstanceName(
+                        DEST_CLS, {'Name': 'x'}, namespace='interop')
+                    calls = {
+                        'add_dest': lambda: mgr.add_destination(
+                            sid, URLS[0], owned=True, destination_id='u'),
+                        'add_filter': lambda: mgr.add_filter(
+                            sid, 'root/cimv2', 'SELECT * FROM '
+                            'CIM_AlertIndication', 'WQL', owned=True,
+                            filter_id='u'),
+                        'add_sub': lambda: mgr.add_subscriptions(
+                            sid, fp, [dp] if i % 2 else None, owned=True),
+                        'rm_sub': lambda: mgr.remove_subscriptions(sid, fp),
+                        'rm_filter': lambda: mgr.remove_filter(sid, fp),
+                        'rm_dest': lambda: mgr.remove_destinations(sid, dp),
+                        'remove_server': lambda: mgr.remove_server(sid)}
+                    try:
+                        calls[kind]()
+                        res = 'returned'
+                    except ValueError:
+                        res = None
+                    except Exception as e:  # pylint: disable=broad-except
+                        res = type(e).__name__
+                    if res is not None or w.nreq[m]:
+                        viol('unregistered-server/%s/%s' % (
+                            kind, res or 'request-sent'),
+                             'step %d %s for a server that is not registered '
+                             'with manager %r: %s, %d requests (documented: '
+                             'ValueError)' % (i, kind, ids[m], res,
+                                              w.nreq[m]))
                     continue
                 elif kind == 'add_dest':
                     _, _, _, url, owned, ident, pt = st
